@@ -35,13 +35,13 @@ Print Assumptions distinct_names_silent.
 (* procedure before CONTAINS *)
 Theorem procedure_before_contains_exact k cstart eline c : c_hash c = false ->
   (before_contains (contains_line k cstart eline) c = true <->
-   c_proc c = true /\ (k = KMod \/ k = KSmod \/ k = KSub \/ k = KFun) /\ c_sline c <= match cstart with Some x => x | None => eline end).
+   c_proc c = true /\ (k = KMod \/ k = KSmod \/ k = KSub \/ k = KFun) /\ c_sline c < match cstart with Some x => x | None => eline end).
 Proof. exact (before_contains_spec k cstart eline c). Qed.
 Print Assumptions procedure_before_contains_exact.
 
 (* USE after IMPLICIT, IMPORT outside an interface body, unknown module *)
 Theorem use_after_implicit_exact pi il us l : 1 <= il ->
-  (In (DUseAfterImplicit l) (check_use pi (Some il) us) <-> l = il - 1 /\ exists u, In u us /\ il <= u_line u).
+  (In (DUseAfterImplicit l) (check_use pi (Some il) us) <-> l = il - 1 /\ exists u, In u us /\ il < u_line u).
 Proof. exact (use_after_implicit_spec pi il us l). Qed.
 Print Assumptions use_after_implicit_exact.
 
